@@ -645,6 +645,8 @@ theorem invPreserving_lenPrefixed {body : Enc → ERes Unit} (hb : InvPreserving
       rw [if_neg (by omega)] at h
       simp only at h
       have hin : start + 2 ≤ e2.buf.length := by omega
+      split at h
+      · simp at h
       obtain ⟨hinv3, hoff3, hlen3, _⟩ := ptrInvH_placeReplace e2 e' start 2 _ (by simp) hin hinv2
         (fun iv hiv => hiv.2) h
       refine ⟨ptrInvH_mono hinv3 (fun iv _ _ hiv => hiv.1), by omega, by omega⟩
